@@ -1119,7 +1119,7 @@ def random_spec(rng, tables):
 
 
 # ------------------------------------------------------------------ shrinking
-def shrink(spec, still_fails, budget=40):
+def shrink(spec, still_fails, budget=60):
     """greedy: drop subsets, links, derived components, datasets while the failure persists"""
     cur = spec
     changed = True
@@ -1145,6 +1145,13 @@ def shrink(spec, still_fails, budget=40):
             s = copy.deepcopy(cur)
             del s['links'][i]
             cands.append(s)
+        for holder in ('subsets', 'datasets'):
+            for i, it in enumerate(cur[holder]):
+                for key in sorted((it.get('style') or {})):
+                    if len(it['style']) > 1:
+                        s = copy.deepcopy(cur)
+                        del s[holder][i]['style'][key]
+                        cands.append(s)
         for di, ds in enumerate(cur['datasets']):
             for ci, c in enumerate(ds['comps']):
                 if c['kind'] in ('arith', 'func', 'parsed', 'datetime', 'dask') or c['name'] not in ('x', 'y', 'z', 'c'):
